@@ -15,6 +15,7 @@ package metrics
 //@ func MeasureConn
 //@   props C02 C15 C18
 //@   params conn bytesSent bytesReceived
+//@   requires bytesSent != nil && bytesReceived != nil
 //@   ensures result != nil && typeis(result, "*metrics.measuredConn") && as(result, "*metrics.measuredConn") != nil
 //@   ensures[C15,counters-wired] as(result, "*metrics.measuredConn").StreamConn == conn && as(result, "*metrics.measuredConn").writeCount == bytesSent && as(result, "*metrics.measuredConn").readCount == bytesReceived
 
